@@ -187,6 +187,26 @@ def run(tier):
         if len(hs) > 1:
             rep.violation("readdir-order-hardlinks", "directory with %d entries and hard-link pairs, options %s: %d different images under the readdir orders %s"
                           % (len(wfiles) - 6, extra, len(hs), sorted(hs.values())), artefact=out, data={"options": extra})
+    # ---- the same scanner behind the glob directive of a pack file, with its filters (FsTree glob options; hard link detection stays on
+    #      unless -nohardlinks): one image - or one refusal - whatever the enumeration order
+    gopts = ["", "-type f", "-type f -type d", "-type f -nonrecursive -keeptime", "-type d", "-name e*", "-nohardlinks -type f", "-type f -type l", "-xdev -type f"]
+    for tree in (wide, big):
+        for go in gopts:
+            pf = tree + "/glob.txt"
+            open(pf, "w").write("glob /g 0644 0 0 %s root\n" % go)
+            hs = {}
+            for k in range(6 if tier == "quick" else 24):
+                out = tree + "/g%d.sqfs" % k
+                env = dict(os.environ, LD_PRELOAD=so, VP_READDIR=["sorted", "reverse"][k] if k < 2 else str(SEED * 77 + k))
+                rc, o_, e_ = sh([tools + "/gensquashfs", "-q", "-f", "-c", "gzip", "-b", "4096", "-F", pf, out], timeout=60, env=env)
+                replays += 1
+                if rc < 0 or rc >= 124:
+                    raise RuntimeError("gensquashfs crashed on a glob directive: %s" % e_[-300:])
+                hs.setdefault((rc, vlib.fsha(out) if rc == 0 else None), k)
+            if len(hs) > 1:
+                rep.violation("readdir-order-glob", "pack file 'glob /g 0644 0 0 %s root' over the tree %s: %d different outcomes under the readdir orders %s"
+                              % (go, os.path.basename(tree), len(hs), sorted(hs.values())), artefact=pf, data={"glob_options": go})
+    ev.set("glob_option_sets", len(gopts) * 2)
     ev.set("control_tree_without_links_identical", True)
     ev.set("trees", len(sel))
     ev.set("traces_validated_against_impl", replays)
